@@ -333,14 +333,21 @@ TARGETS = {
 
 # ----------------------------------------------------------------------------------------------- alias flow (T20alias_*)
 VIEW_METHODS = {'reshape', 'view', 'squeeze', 'transpose', 'swapaxes', 'ravel', 'byteswap', 'newbyteorder', 'get', 'setdefault',
-                '__getitem__', 'values', 'items', 'keys', 'iterall', 'elements', 'data_element', 'group_dataset'}
+                '__getitem__', 'values', 'items', 'keys', 'iterall', 'elements', 'data_element', 'group_dataset', 'getfield',
+                'get_item', 'private_block', 'get_private_item', 'diagonal', 'pop', 'popitem', 'popleft', '__iter__', '__next__'}
 VIEW_FUNCS = {'np.asarray', 'np.asanyarray', 'np.ascontiguousarray', 'np.asfortranarray', 'np.squeeze', 'np.moveaxis',
               'np.transpose', 'np.reshape', 'np.atleast_1d', 'np.atleast_2d', 'np.atleast_3d', 'np.broadcast_to',
               'np.expand_dims', 'np.swapaxes', 'np.ravel', 'getattr', 'iter', 'next', 'enumerate', 'zip', 'reversed',
               'np.frombuffer', 'memoryview', 'np.lib.stride_tricks.as_strided', 'np.lib.stride_tricks.sliding_window_view',
               'np.flip', 'np.flipud', 'np.fliplr', 'np.rot90', 'np.diagonal', 'np.split', 'np.array_split', 'np.nditer',
-              'np.ndindex', 'np.real', 'np.imag', 'np.rollaxis', 'np.atleast_1d'}
+              'np.ndindex', 'np.real', 'np.imag', 'np.rollaxis', 'np.atleast_1d', 'np.require', 'np.asmatrix', 'np.asarray_chkfinite',
+              'np.broadcast_arrays', 'np.hsplit', 'np.vsplit', 'np.dsplit', 'np.ndarray.view', 'vars', 
+              'np.matrix_transpose', 'np.permute_dims', 'np.unstack', 'np.trim_zeros', 'np.fliplr'}
 MUTATORS = {'append', 'extend', 'insert', 'add', 'add_new', 'pop', 'remove', 'clear', 'sort', 'reverse', 'update', 'fill',
+            'partition', 'setdefault', 'appendleft', 'extendleft', 'popleft', 'rotate', 'discard', 'difference_update',
+            'intersection_update', 'symmetric_difference_update', '__iadd__', '__isub__', '__imul__', '__itruediv__',
+            '__ifloordiv__', '__imod__', '__ipow__', '__iand__', '__ior__', '__ixor__', '__ilshift__', '__irshift__', '__imatmul__',
+            'set_original_encoding', 'setfield', 'move_to_end', 
             'itemset', 'put', 'resize', 'setflags', '__setitem__', '__delitem__', '__setattr__', '__delattr__', 'popitem',
             'decompress', 'compress', 'convert_pixel_data', 'walk', 'remove_private_tags', 'ensure_file_meta',
             'fix_meta_info', 'update_raw_element', 'set_pixel_data'}
@@ -349,10 +356,53 @@ MUTATOR_FUNCS = {'setattr', 'delattr', 'np.copyto', 'np.put', 'np.place', 'np.pu
 COPY_FLAG_FUNCS = {'np.array', 'np.asarray', 'np.asanyarray', 'np.astype', 'np.reshape', 'np.nan_to_num'}
 ITER_FUNCS = {'iter', 'next', 'enumerate', 'zip', 'reversed'}
 ITEM_METHODS = {'get', 'setdefault', '__getitem__', 'values', 'items', 'keys', 'iterall', 'elements', 'data_element', 'group_dataset',
-                'pop'}
+                'pop', 'popitem', 'popleft', 'get_item', 'get_private_item', '__iter__', '__next__'}
+# external callees whose result is NEW whatever they are given (everything else that is handed a tracked reference MAY return it,
+# or a part of it): builtins / numpy / pydicom functions that compute a value, and methods that do
+FRESH_FUNCS = {'isinstance', 'issubclass', 'len', 'hasattr', 'any', 'all', 'str', 'int', 'float', 'bool', 'bytes', 'bytearray', 'repr',
+               'sum', 'range', 'abs', 'round', 'hash', 'id', 'type', 'callable', 'ord', 'chr', 'format', 'divmod', 'pow', 'print',
+               'open', 'complex', 'operator.index', 'tag_for_keyword', 'keyword_for_tag', 'dictionary_VR', 'dictionary_VM',
+               'format_number_as_ds', 'write_file_meta_info', 'encapsulate', 'encode_array', 'get_encoder', 'get_entry',
+               'warnings.warn', 'logger.debug', 'logger.info', 'logger.warning', 'logger.error', 'dict.fromkeys', 'b\'\'.join',
+               'Image.fromarray', 'ImageColor.getrgb', 'ImageCms.buildTransform', 'getProfileName', 'getProfileDescription',
+               'isIntentSupported', 'Counter', 'BytesIO', 'Path', 'UUID', 'ProcessPoolExecutor', 'struct.pack', 'struct.unpack',
+               'math.floor', 'math.ceil', 'math.sqrt', 'math.isclose', 'datetime.datetime.now', 'itertools.product'}
+FRESH_PREFIXES = ('np.', 're.', 'math.', 'struct.', 'datetime.', 'logging.', 'logger.', 'warnings.', 'itertools.', 'os.', 'json.')
+FRESH_METHODS = {'astype', 'flatten', 'tobytes', 'tolist', 'tostring', 'issubset', 'issuperset', 'difference', 'union',
+                 'intersection', 'symmetric_difference', 'isdisjoint', 'join', 'encode', 'decode', 'save', 'strip', 'lstrip', 'rstrip',
+                 'split', 'rsplit', 'splitlines', 'lower', 'upper', 'title', 'startswith', 'endswith', 'replace', 'format', 'find',
+                 'index', 'count', 'any', 'all', 'sum', 'max', 'min', 'mean', 'std', 'var', 'prod', 'argmax', 'argmin', 'nonzero',
+                 'cumsum', 'cumprod', 'dot', 'item', 'round', 'clip', 'conj', 'isoformat', 'strftime', 'date', 'time', 'total_seconds',
+                 'to_json', 'to_json_dict', 'read', 'write', 'close', 'seek', 'tell', 'getvalue', 'execute', 'executemany', 'fetchall',
+                 'fetchone', 'commit', 'is_integer', 'bit_length', 'hex', 'zfill', 'ljust', 'rjust', 'isdigit', 'isupper', 'islower',
+                 'capitalize', 'most_common', 'total', 'submit', 'result', 'match', 'search', 'fullmatch', 'group',
+                 'groups', 'dir', 'has_value_type', 'has_relationship_type', 'has_name', 'check', 'search_tree',
+                 'isnumeric', 'tobitmap', 'getdata', 'getrgb', 'fromarray'}
+# external callees that return AN ITEM of their (first) argument
+ITEM_PICK_FUNCS = {'min', 'max', 'next', 'random.choice', 'random.sample', 'heapq.heappop', 'heapq.nsmallest', 'heapq.nlargest',
+                   'statistics.median', 'reduce', 'functools.reduce'}
+# external callees that return a NEW container holding the same parts (a shallow copy): its items / attributes are the original's
+SHALLOW_FUNCS = {'copy.copy', 'copy', 'filter', 'map', 'pydicom.Sequence', 'Sequence', 'pydicom.sequence.Sequence', 'DataElementSequence',
+                 'MultiValue', 'collections.deque', 'deque', 'itertools.chain', 'chain', 'itertools.islice', 'islice', 'OrderedDict',
+                 'collections.OrderedDict', 'defaultdict'}
+SHALLOW_METHODS = {'copy', '__copy__'}
+# positional `out` of numpy functions / methods: index of the argument that is written and returned
+_BIN_UFUNCS = ['add', 'subtract', 'multiply', 'divide', 'true_divide', 'floor_divide', 'power', 'mod', 'remainder', 'fmod', 'maximum',
+               'minimum', 'fmax', 'fmin', 'logical_and', 'logical_or', 'logical_xor', 'bitwise_and', 'bitwise_or', 'bitwise_xor',
+               'left_shift', 'right_shift', 'greater', 'greater_equal', 'less', 'less_equal', 'equal', 'not_equal', 'arctan2',
+               'hypot', 'copysign', 'matmul', 'dot', 'take', 'compress']
+_UN_UFUNCS = ['negative', 'positive', 'abs', 'absolute', 'fabs', 'sqrt', 'square', 'exp', 'exp2', 'log', 'log2', 'log10', 'floor', 'ceil',
+              'rint', 'trunc', 'sign', 'logical_not', 'invert', 'bitwise_not', 'isnan', 'isfinite', 'isinf', 'sin', 'cos', 'tan',
+              'reciprocal', 'conjugate', 'conj', 'fix']
+OUT_POS_FUNCS = {**{'np.' + f: 2 for f in _BIN_UFUNCS}, **{'np.' + f: 1 for f in _UN_UFUNCS}, 'np.clip': 3, 'np.round': 2,
+                 'np.around': 2, 'np.round_': 2, 'np.cumsum': 3, 'np.cumprod': 3, 'np.sum': 3, 'np.prod': 3, 'np.mean': 3, 'np.max': 2,
+                 'np.min': 2, 'np.amax': 2, 'np.amin': 2, 'np.argmax': 2, 'np.argmin': 2, 'np.any': 2, 'np.all': 2, 'np.choose': 2,
+                 'np.nan_to_num': 99}
+OUT_POS_METHODS = {'clip': 2, 'round': 1, 'cumsum': 2, 'cumprod': 2, 'sum': 2, 'prod': 2, 'mean': 2, 'max': 1, 'min': 1, 'argmax': 1,
+                   'argmin': 1, 'any': 1, 'all': 1, 'dot': 1, 'take': 2, 'compress': 2, 'choose': 1, 'std': 2, 'var': 2}
 KEEPING_FUNCS = {'list', 'tuple', 'set', 'dict', 'frozenset', 'sorted'}     # results hold references to their arguments
 MAX_CONDS = 11
-INLINE_DEPTH = 4          # calls of own methods / private helpers are inlined up to this depth
+INLINE_DEPTH = 6          # calls of own methods / private helpers are inlined up to this depth
 CTOR_MAX_CONDS = 6        # constructors: beyond 2^5 paths the arms of branches are merged instead of enumerated
 # converters that cannot re-class their argument and return a new container holding its items (validated by tie C:
 # the correspondence compares 'same object / new object' of every converter with what its program predicts)
@@ -438,6 +488,19 @@ def _multi_scalar_keyword(name):
     return _MULTI[name]
 
 
+_DICOM_KW = {}
+
+
+def _dicom_keyword(name):
+    if name not in _DICOM_KW:
+        try:
+            from pydicom.datadict import tag_for_keyword
+            _DICOM_KW[name] = name[:1].isupper() and tag_for_keyword(name) is not None
+        except Exception:  # noqa: BLE001
+            _DICOM_KW[name] = False
+    return _DICOM_KW[name]
+
+
 def _item_of(e):
     """an item of what `e` denotes; an item of an item is looked up under its own label"""
     if e[0] == 'view' and e[1] in (ITEM, NESTED):
@@ -464,7 +527,8 @@ class _Alias:
 
     def __init__(self, fn):
         self.fn = fn
-        params = [a.arg for a in fn.args.args + fn.args.kwonlyargs if a.arg not in ('self', 'cls')]
+        params = [a.arg for a in fn.args.posonlyargs + fn.args.args + fn.args.kwonlyargs if a.arg not in ('self', 'cls')]
+        params += [a.arg for a in (fn.args.vararg, fn.args.kwarg) if a is not None]      # *args / **kwargs hold caller objects too
         self.params = params
         self.vars = {p: i for i, p in enumerate(params)}
         self.has_copy = 'copy' in params
@@ -487,6 +551,12 @@ class _Alias:
         self.mvvars = set()              # variables bound to the value of a multi-valued non-sequence DICOM attribute
         self.itemvars = set()            # variables bound to an item of a container (an inner container of the same region)
         self.local_classes = {}
+        self._lambdas = {}
+        self.recursion_cut = set()       # recursive functions whose third level was not entered
+        self.closure_parent = {}         # scope of a closure / lambda -> scope it was defined in (captured variables)
+        self.shallow_of = {}             # variable bound to a shallow copy -> expression of the original (same parts)
+        self.kept_vars = set()           # variables bound to an object an external constructor built from tracked references
+        self.module_classes = {}         # classes of the module the function lives in (beside the package's)
         self.shared_vars = []            # objects that exist before the call and outlive it (module globals, class attributes,
         self.shared_names = []           # results of lru_cache'd helpers): extra parameters of the program
 
@@ -511,6 +581,79 @@ class _Alias:
             name = {v: k for k, v in self.labels.items()}.get(e[1], '')
             return _multi_scalar_keyword(name)
         return False
+
+    def all_attributes(self, b):
+        """`vars(x)` / `x.__dict__`: the object's state - itself, and whatever was stored under any attribute so far"""
+        j = ('view', SAME, b)
+        for lab in sorted(set(self.labels.values())):
+            j = ('join', j, ('view', lab, b))
+        return j
+
+    def may_be(self, cands, new=True):
+        """a reference that is one of `cands` (or a new object)"""
+        cands = [c for c in cands if not _is_fresh(c)]
+        if not cands:
+            return FRESH
+        j = FRESH if new else cands[0]
+        for c in (cands if new else cands[1:]):
+            j = ('join', j, c)
+        return j
+
+    def shallow(self, pre, srcs):
+        """a new container with the same parts as `srcs` (copy.copy, `.copy()`, filter, Sequence(lst) ...)"""
+        srcs = [e for e in srcs if not _is_fresh(e)]
+        if not srcs:
+            return FRESH
+        t = self.tmp()
+        pre.append(('assign', t, FRESH))
+        src = srcs[0]
+        for e in srcs[1:]:
+            src = ('join', src, e)
+        src = self.through(src) if src[0] == 'var' else src
+        pre.append(('link', ('var', t), ITEM, ('view', ITEM, src)))
+        self.shallow_of[t] = src
+        return ('var', t)
+
+    def lambda_def(self, lam):
+        """a lambda as a function definition (so that it can be inlined like a closure)"""
+        key = id(lam)
+        if key not in self._lambdas:
+            fd = ast.FunctionDef(name=f'lambda_{lam.lineno}_{lam.col_offset}', args=lam.args,
+                                 body=[ast.Return(value=lam.body)], decorator_list=[], returns=None, type_comment=None)
+            ast.copy_location(fd, lam)
+            ast.fix_missing_locations(fd)
+            fd._def_scope = self.scope
+            self._lambdas[key] = fd
+        return self._lambdas[key]
+
+    def inline_with(self, fdef, e):
+        """the body of a local function / lambda with EVERY parameter bound to `e` (it is called by an external callee)"""
+        if id(fdef) in self.stack or len(self.stack) > INLINE_DEPTH:
+            return []
+        params = [a.arg for a in fdef.args.posonlyargs + fdef.args.args + fdef.args.kwonlyargs]
+        params += [a.arg for a in (fdef.args.vararg, fdef.args.kwarg) if a is not None]
+        outer_scope, outer_ret, outer_cls = self.scope, self.ret_var, self.scope_cls
+        self.inlined.append(fdef.name)
+        self.scope = f'{fdef.name}#{len(self.inlined)}.'
+        self.closure_parent[self.scope] = outer_scope
+        self.stack.append(id(fdef))
+        pre = [('assign', self.var(p_), e) for p_ in params]
+        ret = self.tmp()
+        pre.append(('assign', ret, FRESH))
+        self.ret_var = ret
+        try:
+            pre += self.block(strip_doc(fdef.body))
+        finally:
+            self.scope, self.ret_var, self.scope_cls = outer_scope, outer_ret, outer_cls
+            self.stack.pop()
+        return pre
+
+    def through(self, e):
+        """the object `e` denotes, or - when `e` is a variable bound to a shallow copy - the original as well: the parts
+        (attributes, items) of a shallow copy are the parts of the original"""
+        if e[0] == 'var' and e[1] in self.shallow_of:
+            return ('join', e, self.shallow_of[e[1]])
+        return e
 
     def item_of(self, e):
         if self.is_multi_scalar(e):
@@ -565,13 +708,21 @@ class _Alias:
                 return pre, self.compenv[node.id]
             if self.scope + node.id in self.vars:
                 return pre, ('var', self.vars[self.scope + node.id])
+            sc = self.scope
+            while sc in self.closure_parent:          # a closure / lambda reads (and writes through) what it captured
+                sc = self.closure_parent[sc]
+                if sc + node.id in self.vars:
+                    return pre, ('var', self.vars[sc + node.id])
             if node.id in _package()['globals_mut']:
                 return pre, self.shared(node.id)       # a mutable module global: exists before the call, shared by all calls
             return pre, FRESH
         if isinstance(node, ast.Attribute):
             p, b = self.expr(node.value)
+            if node.attr == '__dict__':
+                return p, self.all_attributes(b)     # the attribute dictionary IS the object's state
             if _scalar_keyword(node.attr):
                 return p, FRESH          # a single-valued non-sequence DICOM attribute: an immutable str / number
+            b = self.through(b)
             if node.attr in _package()['class_mut'] and isinstance(node.value, ast.Name):
                 # a mutable class attribute reached through self / cls / the class: the instance's own or the shared one
                 return p, ('join', ('view', self.label(node.attr), b), self.shared(node.attr))
@@ -579,7 +730,7 @@ class _Alias:
         if isinstance(node, ast.Subscript):
             p, b = self.expr(node.value)
             p2, _ = self.expr(node.slice)
-            return p + p2, self.item_of(b)
+            return p + p2, self.item_of(self.through(b))
         if isinstance(node, ast.Starred):
             return self.expr(node.value)
         if isinstance(node, (ast.Tuple, ast.List, ast.Set)):
@@ -639,6 +790,17 @@ class _Alias:
                     t = self.tmp()
                     return pa + [('ite', 0, [('assign', t, FRESH)], [('deep', a), ('assign', t, a)])], ('var', t)
                 raise Unsupported(f'{self.fn.name}: converter call with copy={ast.unparse(ck[0])}')
+            if fname in ('exec', 'eval', 'compile', '__import__'):
+                raise Unsupported(f'{self.fn.name}: {fname}() cannot be abstracted')
+            if isinstance(node.func, ast.Lambda):          # `(lambda a: ...)(x)`
+                pi, ei = self.inline(node, self.lambda_def(node.func), None)
+                return pre + pi, ei
+            if isinstance(node.func, ast.Attribute) and node.func.attr in OUT_POS_METHODS \
+                    and len(args) > OUT_POS_METHODS[node.func.attr]:
+                # whatever class the receiver has: if it is an array, this positional argument is `out`
+                po, o = self.expr(args[OUT_POS_METHODS[node.func.attr]])
+                if not _is_fresh(o):
+                    pre += po + [('write', o)]
             callee, bind_self = self.resolve(node)
             if callee is not None and callee.name in _package()['cached']:
                 # an lru_cache'd helper: every call with the same arguments yields the SAME object, which outlives the call
@@ -647,7 +809,8 @@ class _Alias:
                     pre += pe
                 return pre, self.shared('cache:' + callee.name)
             if callee is not None:
-                return self.inline(node, callee, bind_self)
+                pi, ei = self.inline(node, callee, bind_self)
+                return pre + pi, ei
             vals = []
             for a in args + [k.value for k in node.keywords]:
                 pe, e = self.expr(a)
@@ -670,6 +833,8 @@ class _Alias:
                 return pre, vals[1]
             if fname.split('.')[-1] in ('Dataset', 'FileMetaDataset') and len(args) == 1 and not node.keywords:
                 return pre, ('view', SAME, vals[0])    # pydicom: `Dataset(other)` shares the element dict of `other` - no copy
+            if fname == 'vars' and args:
+                return pre, self.all_attributes(vals[0])
             if fname in VIEW_FUNCS and args:
                 if fname == 'getattr' and len(args) >= 2 and isinstance(args[1], ast.Constant) and isinstance(args[1].value, str):
                     return pre, ('view', self.label(args[1].value), vals[0])
@@ -682,13 +847,47 @@ class _Alias:
                     if not _is_fresh(e):
                         pre.append(('link', vals[0], lab, e))
                 return pre, FRESH
-            if isinstance(node.func, ast.Attribute):
+            tracked = [e for e in vals if not _is_fresh(e)]
+            # callables handed to an external callee (map / filter / sorted(key=) / walk ...): the callee may call them on (the items
+            # of) anything else it is given - their bodies run once with every parameter bound to that
+            for a in args + [k.value for k in node.keywords]:
+                fdef = None
+                if isinstance(a, ast.Lambda):
+                    fdef = self.lambda_def(a)
+                elif isinstance(a, ast.Name) and self.scope + a.id in self.local_funcs:
+                    fdef = self.local_funcs[self.scope + a.id]
+                if fdef is not None:
+                    pool = [x for e in tracked for x in (e, self.item_of(e))]
+                    recv0 = None
+                    if isinstance(node.func, ast.Attribute):
+                        pr0, recv0 = self.expr(node.func.value)
+                        pre += pr0
+                        if not _is_fresh(recv0):
+                            pool += [recv0, self.item_of(recv0)]
+                    if pool:
+                        j = pool[0]
+                        for x in pool[1:]:
+                            j = ('join', j, x)
+                        pre += self.inline_with(fdef, j)
+            root = node.func
+            while isinstance(root, (ast.Attribute, ast.Subscript)):
+                root = root.value
+            # `np.clip(...)`, `copy.copy(...)`: a function of a module, not a method of an object the function holds
+            module_call = isinstance(node.func, ast.Attribute) and isinstance(root, ast.Name) and root.id not in ('self', 'cls') \
+                and not self.rooted_in_variable(node.func.value) and root.id not in _package()['globals_mut']
+            if isinstance(node.func, ast.Attribute) and not module_call:
                 if ast.unparse(node.func.value) == 'super()' and self.scope + 'self' in self.vars:
                     pr, recv = [], ('var', self.vars[self.scope + 'self'])      # an inherited (external) method acts on self
                 else:
                     pr, recv = self.expr(node.func.value)
                 pre += pr
-                if node.func.attr in MUTATORS:
+                meth = node.func.attr
+                # positional `out` of numpy methods: `arr.clip(0, 1, arr)`
+                if meth in OUT_POS_METHODS and len(args) > OUT_POS_METHODS[meth] and not _is_fresh(vals[OUT_POS_METHODS[meth]]):
+                    o = vals[OUT_POS_METHODS[meth]]
+                    pre.append(('write', o))
+                    return pre, ('view', SAME, o)
+                if meth in MUTATORS:
                     pre.append(('write', recv))
                     holder, lab = recv, ITEM
                     if recv[0] == 'view' and recv[1] in (ITEM, NESTED):
@@ -697,28 +896,63 @@ class _Alias:
                         lab = NESTED                           # `lst = d[k]; lst.append(x)`
                     for e in vals:
                         if not _is_fresh(e):
-                            pre.append(('link', holder, ELEM if node.func.attr == 'add' else lab, e))
-                            if node.func.attr in ('extend', 'update'):
+                            pre.append(('link', holder, ELEM if meth == 'add' else lab, e))
+                            if meth in ('extend', 'update', 'extendleft', '__iadd__', '__ior__'):
                                 pre.append(('link', holder, lab, ('view', ITEM, e)))
+                    if meth in ITEM_METHODS:                   # `pop`, `setdefault`, `popitem`: hands out what was stored
+                        return pre, self.item_of(self.through(recv))
                     return pre, FRESH
-                if node.func.attr in VIEW_METHODS:
-                    if kwconst('inplace', True) or (node.func.attr == 'byteswap' and args and isinstance(args[0], ast.Constant)
+                if meth in VIEW_METHODS:
+                    if kwconst('inplace', True) or (meth == 'byteswap' and args and isinstance(args[0], ast.Constant)
                                                     and args[0].value is True):
                         pre.append(('write', recv))         # `a.byteswap(inplace=True)`
-                    return pre, ('view', ITEM if node.func.attr in ITEM_METHODS else SAME, recv)
+                    if meth == 'private_block' and kwconst('create', True):
+                        pre.append(('write', recv))
+                    rb = self.through(recv)
+                    return pre, (self.item_of(rb) if meth in ITEM_METHODS else ('view', SAME, rb))
                 if kwconst('inplace', True) and not _is_fresh(recv):
                     pre.append(('write', recv))             # an external method asked to work in place
                     return pre, ('view', SAME, recv)
                 if kwconst('copy', False) and not _is_fresh(recv):
                     return pre, ('view', SAME, recv)        # `a.astype(t, copy=False)`: a itself when nothing has to change
-            if any(not _is_fresh(e) for e in vals):
+                if meth in SHALLOW_METHODS and not _is_fresh(recv):
+                    return pre, self.shallow(pre, [recv])   # `ds.copy()`, `lst.copy()`: a new holder of the same parts
+                if not _is_fresh(recv) or tracked:
+                    self.external.add(fname.split('(')[0][-40:])
+                if meth in FRESH_METHODS or (fname.startswith(FRESH_PREFIXES) and fname not in VIEW_FUNCS):
+                    return pre, FRESH
+                if recv[0] == 'var' and recv[1] in self.kept_vars and not _is_fresh(recv):
+                    # an unknown method of an object that an external constructor built from tracked references: it may work on them
+                    pre.append(('deep', recv))
+                # an unknown external method: its result may be the receiver, a part of it, an argument, a part of one - or new
+                cand = [x for e in ([recv] if not _is_fresh(recv) else []) + tracked for x in (self.through(e), self.item_of(self.through(e)))]
+                return pre, self.may_be(cand)
+            if tracked:
                 self.external.add(fname.split('(')[0][-40:])       # not a highdicom function: assumed not to write its arguments
             last = fname.split('.')[-1]
+            # positional `out` of numpy functions: `np.add(arr, 1, arr)`, `np.clip(arr, 0, 1, arr)`
+            if fname in OUT_POS_FUNCS and len(args) > OUT_POS_FUNCS[fname] and not _is_fresh(vals[OUT_POS_FUNCS[fname]]):
+                o = vals[OUT_POS_FUNCS[fname]]
+                pre.append(('write', o))
+                return pre, ('view', SAME, o)
+            if isinstance(node.func, ast.Call) and ast.unparse(node.func.func) in ('operator.itemgetter', 'itemgetter',
+                                                                                    'operator.attrgetter', 'attrgetter'):
+                return pre, self.may_be([x for e in tracked for x in (self.item_of(self.through(e)), self.through(e))], new=False)
+            if fname in ITEM_PICK_FUNCS or last in ('min', 'max', 'next'):
+                return pre, self.may_be([x for e in tracked for x in (self.item_of(self.through(e)), self.through(e))], new=False)
+            if fname in SHALLOW_FUNCS:
+                return pre, self.shallow(pre, tracked)
             if last in KEEPING_FUNCS:
-                return pre, self.pack(pre, vals + [('view', ITEM, e) for e in vals if not _is_fresh(e)])   # list(x), sorted(x) …
+                return pre, self.pack(pre, vals + [('view', ITEM, self.through(e)) for e in vals if not _is_fresh(e)])   # list(x), sorted(x) …
             if last[:1].isupper() or last == 'cls':
-                return pre, self.pack(pre, vals, KEPT)    # a constructor keeps references to what it is given
-            return pre, FRESH
+                r = self.pack(pre, vals, KEPT)    # a constructor keeps references to what it is given
+                if r[0] == 'var' and (last in _package()['classes'] or last in _EXTRA_CLASSES):
+                    self.kept_vars.add(r[1])      # an object of a class of the package / module: its methods work on what it keeps
+                return pre, r
+            if fname in FRESH_FUNCS or last in FRESH_FUNCS or (fname.startswith(FRESH_PREFIXES) and fname not in VIEW_FUNCS):
+                return pre, FRESH
+            # an unknown external function: its result may be an argument, a part of one - or new
+            return pre, self.may_be([x for e in tracked for x in (self.through(e), self.item_of(self.through(e)))])
         if isinstance(node, (ast.ListComp, ast.SetComp, ast.GeneratorExp, ast.DictComp)):
             saved = dict(self.compenv)
             body = []
@@ -789,7 +1023,7 @@ class _Alias:
                     for cname, node in pkg['classes'].items():
                         if any(m is target for m in node.body):
                             self._next_cls = cname
-            elif base in pkg['classes']:
+            elif base in pkg['classes'] or base in _EXTRA_CLASSES:
                 target = _mro_lookup(base, f.attr)
                 internal = target is not None
                 self._next_cls = base
@@ -805,8 +1039,16 @@ class _Alias:
                     target, bind = pick[0][1], f.value
                     self._next_cls = pick[0][0]
         elif isinstance(f, ast.Name):
-            if self.scope + f.id in self.local_funcs:
-                target, internal = self.local_funcs[self.scope + f.id], True
+            sc, found = self.scope, None
+            while True:
+                if sc + f.id in self.local_funcs:
+                    found = self.local_funcs[sc + f.id]
+                    break
+                if sc not in self.closure_parent:
+                    break
+                sc = self.closure_parent[sc]
+            if found is not None:
+                target, internal = found, True
             elif f.id in self.functions:
                 target, internal = self.functions[f.id], True
             elif f.id in pkg['funcs'] and f.id not in self.vars:
@@ -814,7 +1056,14 @@ class _Alias:
                 if len(pkg['funcs'][f.id]) == 1:
                     target = pkg['funcs'][f.id][0]
             self._next_cls = None
-        if target is not None and (id(target) in self.stack or len(self.stack) > INLINE_DEPTH):
+        if target is not None and self.stack.count(id(target)) == 1 and len(self.stack) <= INLINE_DEPTH + 1:
+            pass        # a recursive call: the body once more (recursion is unrolled twice, like a loop) ...
+        elif target is not None and self.stack.count(id(target)) >= 2:
+            # ... and cut there: on the caller's objects the third level sees what the second saw (everything reachable from an
+            # argument is one region); its result may be any of its arguments
+            self.recursion_cut.add(target.name)
+            return None, None
+        elif target is not None and len(self.stack) > INLINE_DEPTH:
             target = None
         if target is None and internal:
             # an internal callee we do not look into: sound only if nothing the caller holds is passed to it
@@ -839,37 +1088,77 @@ class _Alias:
             node = node.value
         if isinstance(node, ast.Call):
             return False
-        return isinstance(node, ast.Name) and (node.id in self.compenv or self.scope + node.id in self.vars)
+        if not isinstance(node, ast.Name):
+            return False
+        if node.id in self.compenv or self.scope + node.id in self.vars:
+            return True
+        sc = self.scope
+        while sc in self.closure_parent:
+            sc = self.closure_parent[sc]
+            if sc + node.id in self.vars:
+                return True
+        return False
 
     def inline(self, call, callee, bind_self):
-        """the body of `callee` in place of the call: parameters bound to the arguments, returns collected in a variable"""
+        """the body of `callee` in place of the call: parameters bound to the arguments (`*x` / `**x` forwarded: every parameter
+        not bound otherwise may be an item of `x`; the callee's own `*args` / `**kwargs` collect the rest), returns collected in
+        a variable; a closure / lambda sees the variables of the scope it was defined in"""
         pre = []
         recv = None
         if bind_self is not None and bind_self != 'self':
             pr, recv = self.expr(bind_self)
             pre += pr
-        params = [a.arg for a in callee.args.args + callee.args.kwonlyargs]
+        params = [a.arg for a in callee.args.posonlyargs + callee.args.args + callee.args.kwonlyargs]
         is_method = bool(params) and params[0] in ('self', 'cls')
         actual = {}
         pos = [p for p in params if p not in ('self', 'cls')] if is_method else params
-        for p, a in zip(pos, call.args):
+        npos = len([p for p in (callee.args.posonlyargs + callee.args.args) if p.arg not in ('self', 'cls')])
+        i, extra, spread = 0, [], []
+        for a in call.args:
+            if isinstance(a, ast.Starred):
+                pe, e = self.expr(a.value)
+                pre += pe
+                if not _is_fresh(e):
+                    spread.append(self.item_of(self.through(e)))
+                continue
             pe, e = self.expr(a)
             pre += pe
-            actual[p] = e
+            if i < npos:
+                actual[pos[i]] = e
+                i += 1
+            else:
+                extra.append(e)
+        kw_extra, kw_spread = [], []
         for k in call.keywords:
-            if k.arg is not None:
-                pe, e = self.expr(k.value)
-                pre += pe
+            pe, e = self.expr(k.value)
+            pre += pe
+            if k.arg is None:
+                if not _is_fresh(e):
+                    kw_spread.append(e)
+            elif k.arg in params:
                 actual[k.arg] = e
+            else:
+                kw_extra.append(e)
         outer_scope, outer_ret, outer_cls = self.scope, self.ret_var, self.scope_cls
         outer_self = self.vars.get(outer_scope + 'self')
         next_cls = self._next_cls
         self.inlined.append(callee.name)
         self.scope = f'{callee.name}#{len(self.inlined)}.'
+        if hasattr(callee, '_def_scope'):
+            self.closure_parent[self.scope] = callee._def_scope
         self.scope_cls = next_cls
         self.stack.append(id(callee))
+        maybe = spread + [self.item_of(self.through(e)) for e in kw_spread]
         for p in pos:
-            pre.append(('assign', self.var(p), actual.get(p, FRESH)))
+            e = actual.get(p, FRESH)
+            if p not in actual and maybe:
+                e = self.may_be(maybe)
+            pre.append(('assign', self.var(p), e))
+        if callee.args.vararg is not None:
+            pre.append(('assign', self.var(callee.args.vararg.arg), self.pack(pre, extra + spread)))
+        if callee.args.kwarg is not None:
+            ke = self.pack(pre, kw_extra + [self.item_of(self.through(e)) for e in kw_spread])
+            pre.append(('assign', self.var(callee.args.kwarg.arg), ke))
         if is_method and params[0] == 'self':
             if bind_self == 'self' and outer_self is not None:
                 self.vars[self.scope + 'self'] = outer_self
@@ -902,6 +1191,12 @@ class _Alias:
                 self.itemvars.add(v)
             if self.is_multi_scalar(e):
                 self.mvvars.add(v)
+            self.shallow_of.pop(v, None)
+            self.kept_vars.discard(v)
+            if e[0] == 'var' and e[1] in self.shallow_of:
+                self.shallow_of[v] = self.shallow_of[e[1]]
+            if e[0] == 'var' and e[1] in self.kept_vars:
+                self.kept_vars.add(v)
             out.append(('assign', v, e))
         elif isinstance(target, (ast.Tuple, ast.List)):
             for el in target.elts:
@@ -915,6 +1210,9 @@ class _Alias:
                 # there with `add` is the very object another data set may hold
                 out.append(('write', ('view', ELEM, b)))
                 out.append(('link', b, self.label(target.attr), e))      # also for new values: `x.f` is then that object
+                if not _is_fresh(e) and _dicom_keyword(target.attr):
+                    # a data set: the same stored object is what `x["Keyword"]` and iteration over `x` reach (through the element)
+                    out.append(('link', b, ITEM, e))
             elif not _is_fresh(e):
                 out.append(('link', b, ITEM, e))
                 out.append(('link', b, ELEM, e))       # `ds[tag] = elem` stores the element object itself, like `add`
@@ -931,6 +1229,9 @@ class _Alias:
                     continue
                 p, _ = self.expr(st.value)
                 out += p
+            elif isinstance(st, ast.Assign) and isinstance(st.value, ast.Lambda) and len(st.targets) == 1 \
+                    and isinstance(st.targets[0], ast.Name):
+                self.local_funcs[self.scope + st.targets[0].id] = self.lambda_def(st.value)      # `f = lambda a: ...`
             elif isinstance(st, ast.Assign):
                 p, e = self.expr(st.value)
                 out += p
@@ -950,9 +1251,14 @@ class _Alias:
                     if not _is_fresh(v) and isinstance(st.op, ast.Add):
                         out.append(('link', e, ITEM, ('view', ITEM, v)))   # list += items
                 else:
+                    # `x.f op= v` / `x[i] op= v`: the object stored there is changed in place (arrays, lists) and stored again
                     p2, b = self.expr(st.target.value)
                     out += p2
+                    _, tgt = self.expr(st.target)
+                    out.append(('write', tgt))
                     out.append(('write', b))
+                    if not _is_fresh(v) and isinstance(st.op, ast.Add):
+                        out.append(('link', tgt, ITEM, ('view', ITEM, v)))
             elif isinstance(st, ast.Delete):
                 for t in st.targets:
                     if isinstance(t, (ast.Attribute, ast.Subscript)):
@@ -998,6 +1304,22 @@ class _Alias:
                 if not isinstance(st, ast.While):
                     self.assign_to(st.target, self.item_of(it), body2)
                 body2 += self.block(st.body)
+                # widening: before the second pass every variable the body re-binds from another loop-carried variable may hold
+                # what ANY earlier iteration left there (`a = b; b = it`: a chain of any depth), so the pass stands for all later ones
+                assigns = []
+
+                def loop_assigns(p_):
+                    for s_ in p_:
+                        if s_[0] == 'assign':
+                            assigns.append((s_[1], s_[2]))
+                        elif s_[0] == 'ite':
+                            loop_assigns(s_[2])
+                            loop_assigns(s_[3])
+                loop_assigns(body)
+                carried = {x for x, _ in assigns}
+                carry = [(x, e) for x, e in assigns if _root_vars(e) & carried and not _is_fresh(e)]
+                weak = [('assign', x, ('join', ('var', x), e)) for x, e in carry]
+                body2 = weak * min(len(carry), 6) + body2
                 c = self.cond('loop: ' + head)
                 c2 = self.cond('loop, second pass: ' + head)
                 out.append(('ite', c, body + [('ite', c2, body2, [])], []))
@@ -1033,6 +1355,7 @@ class _Alias:
                                  ast.Continue)):
                 continue
             elif isinstance(st, ast.FunctionDef):
+                st._def_scope = self.scope
                 self.local_funcs[self.scope + st.name] = st       # a closure: inlined where it is called
             elif isinstance(st, ast.ClassDef):
                 continue
@@ -1369,14 +1692,18 @@ def _base_methods():
     return _BASE_CACHE[key]
 
 
+_EXTRA_CLASSES = {}     # classes of the module being translated that the package scan does not know (the extractor's test corpus)
+
+
 def _mro_lookup(cls_name, meth, skip_own=False, seen=None):
     """first definition of `meth` along the (name-resolved) bases of a package class; None if it ends in an external base"""
     pkg = _package()
     seen = seen or set()
-    if cls_name in seen or cls_name not in pkg['classes']:
+    classes = pkg['classes'] if cls_name in pkg['classes'] else _EXTRA_CLASSES
+    if cls_name in seen or cls_name not in classes:
         return None
     seen.add(cls_name)
-    node = pkg['classes'][cls_name]
+    node = classes[cls_name]
     if not skip_own:
         for m in node.body:
             if isinstance(m, ast.FunctionDef) and m.name == meth:
@@ -1392,6 +1719,8 @@ def _mro_lookup(cls_name, meth, skip_own=False, seen=None):
 def _with_context(a, tree, cls_name):
     """give an extractor the definitions it may inline"""
     a.cls_name = cls_name
+    _EXTRA_CLASSES.clear()
+    _EXTRA_CLASSES.update({n.name: n for n in tree.body if isinstance(n, ast.ClassDef) and n.name not in _package()['classes']})
     a.functions = {n.name: n for n in tree.body if isinstance(n, ast.FunctionDef)}
     # names of classes this module defines or imports (to tell apart methods of the same name in different classes)
     local = {n.name: None for n in tree.body if isinstance(n, ast.ClassDef)}       # None: this module itself
@@ -1984,3 +2313,71 @@ def build_shared(_tree):
 
 
 TARGETS['T20shared'] = {'file': 'base.py', 'build': build_shared}
+
+
+# ----------------------------------------------------------------------------------------------- negative tests of the extractor (T20neg)
+def _corpus_entry(prelude, body, name, ident):
+    """-> ('entry', aux, term) | ('refused', reason)"""
+    import textwrap
+    src = prelude % textwrap.indent(body, ' ' * 8)
+    tree = ast.parse(src)
+    cls = [n for n in tree.body if isinstance(n, ast.ClassDef) and n.name == 'K'][0]
+    fn = cls.body[0]
+    try:
+        a = _with_context(_Alias(fn), tree, 'K')
+        a.max_conds = CTOR_MAX_CONDS
+        try:
+            prog = a.program()
+        except Unsupported as e:
+            if 'relevant conditions' not in str(e):
+                raise
+            a = _with_context(_Alias(fn), tree, 'K')
+            a.max_conds = CTOR_MAX_CONDS
+            prog = a.program(merge_arms=True)
+        if a.unmodelled:
+            raise Unsupported('passes a reference to internal callees that are not modelled: ' + ', '.join(sorted(a.unmodelled)))
+    except Unsupported as e:
+        return ('refused', str(e))
+    aux, term = _render_entry(name, a.nparams, len(a.cond_texts), False, prog, ident)
+    return ('entry', aux, term)
+
+
+def build_neg(_tree):
+    """the corpus of synthetic constructors (translate/tests_C20/corpus.py) through the extractor as it stands"""
+    import importlib.util
+    path = os.path.join(os.path.dirname(os.path.abspath(__file__)), 'tests_C20', 'corpus.py')
+    spec = importlib.util.spec_from_file_location('c20_corpus', path)
+    mod = importlib.util.module_from_spec(spec)
+    spec.loader.exec_module(mod)
+    _PKG.clear()          # the corpus is extracted against the package as it stands
+    auxs, neg, refused, twins, twin_refused = [], [], [], [], []
+    for k, (name, body) in enumerate(mod.WRITERS.items()):
+        r = _corpus_entry(mod.PRELUDE, body, name, f'prog_neg_{k}')
+        if r[0] == 'refused':
+            refused.append((name, r[1]))
+        else:
+            auxs.append(r[1])
+            neg.append(f'  -- {body!r}\n  ' + r[2])
+    for k, (name, body) in enumerate(mod.TWINS.items()):
+        r = _corpus_entry(mod.PRELUDE, body, name, f'prog_twin_{k}')
+        if r[0] == 'refused':
+            twin_refused.append((name, r[1]))
+        else:
+            auxs.append(r[1])
+            twins.append(f'  -- {body!r}\n  ' + r[2])
+    if len(neg) + len(refused) < 100:
+        raise Unsupported('corpus of writing constructors is missing or too small')
+    text = (''.join(auxs) + '/-- constructors that WRITE an argument (translate/tests_C20/corpus.py: WRITERS), as the extractor abstracts them -/\n'
+            'def negCorpus : List Aliasing.Entry := [\n' + ',\n'.join(neg) + '\n]\n\n'
+            '/-- writing constructors the extractor refuses to abstract (they would land on the skipped list) -/\n'
+            + ''.join(f'-- refused {n}: {why[:200]}\n' for n, why in refused) +
+            'def negRefused : List String := [' + ', '.join(f'"{n}"' for n, _ in refused) + ']\n\n'
+            '/-- constructors that write nothing the caller can see (TWINS), as the extractor abstracts them -/\n'
+            'def twinCorpus : List Aliasing.Entry := [\n' + ',\n'.join(twins) + '\n]\n\n'
+            '/-- twins the extractor refuses (must be none) -/\n'
+            + ''.join(f'-- refused {n}: {why[:200]}\n' for n, why in twin_refused) +
+            'def twinRefused : List String := [' + ', '.join(f'"{n}"' for n, _ in twin_refused) + ']')
+    return text, hashlib.sha256(text.encode()).hexdigest()
+
+
+TARGETS['T20neg'] = {'file': 'base.py', 'build': build_neg, 'imports': ['HdVerif.Model.Aliasing']}
